@@ -279,6 +279,17 @@ def r3_grid(ctx: Context) -> None:
     ctx.check(ok, "R3.dims", "SearchSpace.dims", "dims is the number of parameters", f"dims returns `{src(ret[0].value) if ret else '?'}`", dims, dims.node)
     n = normaliser(prog, init, inline_locals=False)
     aranges = [c for c in ast.walk(init.node) if isinstance(c, ast.Call) and (dotted(c.func) or "").endswith("arange")]
+    if not aranges:
+        # the one other common way of laying out a grid is decidedly different: linspace pins *both* end points and divides what lies between
+        for c in [c for c in ast.walk(init.node) if isinstance(c, ast.Call) and (dotted(c.func) or "").split(".")[-1] == "linspace"]:
+            a0, a1 = kwarg(c, "start", 0), kwarg(c, "stop", 1)
+            from ..poly import single_assignment_env as _sae
+            env_ = _sae(init.node)
+            txt = lambda e: src(env_.get(e.id, e)) if isinstance(e, ast.Name) else src(e)  # noqa: E731
+            if a0 is not None and a1 is not None and "bounds" in txt(a0) and "bounds" in txt(a1) and "[0]" in txt(a0).replace(" ", "") and "[1]" in txt(a1).replace(" ", ""):
+                ctx.fail("R3.arange", "SearchSpace.__init__:linspace", f"the grid column is `{src(c)[:70]}`: linspace pins both bounds and spaces the points by (upper - lower) / (n - 1), "
+                         "which is the declared precision only when the range is a whole number of steps - otherwise consecutive grid values do not differ by the precision", init, c)
+                return
     ctx.floor("R3", "np.arange call building the grid in SearchSpace.__init__", len(aranges), 1)
     c = aranges[0]
     start, stop, step = kwarg(c, "start", 0), kwarg(c, "stop", 1), kwarg(c, "step", 2)
